@@ -64,7 +64,9 @@ def gen_session(rng, tier):
         elif kind == "ter":
             steps.append(["ter", k, c, rng.random() < 0.7])
         elif kind == "scale":
-            steps.append(["scale", k, rng.choice([0.5, 2.0, 3.0, 1.0, 0.25])])
+            # round 4 (owners): half of the scale steps hand over a numpy scalar / 0-d / per-cell / per-magnitude / per-bin array
+            steps.append(["scale", k, rng.choice([0.5, 2.0, 3.0, 1.0, 0.25]) if rng.random() < 0.5
+                          else base._gen_factor(rng, allow_date=False)])
         elif kind == "read":
             steps.append(["read", k, c])
         elif kind == "editmag":
@@ -182,6 +184,13 @@ def _do_test(run, drv, pending, case, spec, st, mode, k, c, how, nsim, seed, tag
         run.oracle_failure(case, f"{label} raised {type(e).__name__}: {e}")
         return
     if mode in ("L", "CL"):
+        if not st.cat_has_region[c] and getattr(cat, "region", None) is not fore.region:
+            # the test bound an EQUAL region of its own to the catalog (a copy), not the shared object: legal, but from here on
+            # re-binding the shared region's edges no longer reaches this catalog - the session's bookkeeping ("edges bound
+            # last hold for everybody") describes the aliasing of the present code, an incidental behaviour. This test is still
+            # judged (the copy's edges are the current ones); the rest of the session is not.
+            st.stop = True
+            run.count("session-region-bound-as-copy")
         st.cat_has_region[c] = True
     run.count(f"session-test-{mode}-{how}")
     try:
@@ -210,7 +219,7 @@ def _do_test(run, drv, pending, case, spec, st, mode, k, c, how, nsim, seed, tag
                                      f"they are at call time")
     if td and not (math.isnan(obs) or any(math.isnan(v) for v in td)):
         kq = sum(1 for v in td if v <= obs)
-        if q != kq / len(td):
+        if abs(q - kq / len(td)) > 1e-12:
             run.oracle_failure(case, f"{label}: quantile {q!r} is not {kq}/{len(td)}")
     st.log.append(f"T|{mode}|{st.index[k]}|{c}")
     st.tests.append((label, obs, scales[0]))
@@ -245,6 +254,8 @@ def eval_session(run, drv, pending, spec, tag="gen"):
     st = _setup(spec)
     prng = numpy.random.default_rng(spec["probe_seed"])
     for idx, step in enumerate(spec["steps"]):
+        if getattr(st, "stop", False):
+            break
         kind = step[0]
         run.count(f"session-step-{kind}")
         try:
@@ -264,9 +275,23 @@ def eval_session(run, drv, pending, spec, tag="gen"):
             elif kind == "ter":
                 _aux(run, st.fores[step[1]].target_event_rates, st.cats[step[2]], scale=step[3])
             elif kind == "scale":
-                st.fores[step[1]].scale(step[2])
-                st.scale[step[1]] = step[2]
-                st.log.append(f"S|{st.index[step[1]]}|{base._bits(step[2])}")
+                val = step[2]
+                if isinstance(val, (list, tuple)):
+                    w = base._factor(val, spec["ns"], spec["nm"])
+                    run.count(f"session-scale-{val[0]}")
+                    if val[0] == "col":
+                        st.log.append(f"A|{st.index[step[1]]}|C|" + ",".join(base._bits(x) for x in numpy.ravel(w)))
+                    elif val[0] in ("row", "row2d"):
+                        st.log.append(f"A|{st.index[step[1]]}|M|" + ",".join(base._bits(x) for x in numpy.ravel(w)))
+                    elif val[0] == "full":
+                        st.log.append(f"A|{st.index[step[1]]}|B|" + base._rows(w, base._bits))
+                    else:
+                        st.log.append(f"S|{st.index[step[1]]}|{base._bits(float(numpy.ravel(w)[0]))}")
+                else:
+                    w = val
+                    st.log.append(f"S|{st.index[step[1]]}|{base._bits(val)}")
+                st.fores[step[1]].scale(w)
+                st.scale[step[1]] = w
             elif kind == "read":
                 f, cat = st.fores[step[1]], st.cats[step[2]]
                 _aux(run, f.spatial_counts)
@@ -294,7 +319,7 @@ def eval_session(run, drv, pending, spec, tag="gen"):
         except Exception as e:
             run.oracle_failure(case, f"session step {idx} {step!r} raised {type(e).__name__}: {e}")
             return
-        if kind != "test":
+        if kind != "test" and not getattr(st, "stop", False):
             # after EVERY step: a Poisson test on objects of the session must be what a fresh evaluation would give
             made = [k for k, f in enumerate(st.fores) if f is not None]
             k = made[int(prng.integers(len(made)))]
@@ -303,7 +328,7 @@ def eval_session(run, drv, pending, spec, tag="gen"):
             _do_test(run, drv, pending, case, spec, st, mode, k, c, "inject", 1, int(prng.integers(2 ** 31)), f"{idx}+probe")
     # at the end: all four tests on every forecast of the session against the shared-region catalog
     for k, f in enumerate(st.fores):
-        if f is None:
+        if f is None or getattr(st, "stop", False):
             continue
         for mode in TESTS:
             _do_test(run, drv, pending, case, spec, st, mode, k, 0, "inject", 1, int(prng.integers(2 ** 31)), f"end-{k}")
